@@ -63,9 +63,10 @@ fn band_version_requirement() -> semver::VersionReq {
 }
 
 fn band_version_supported(version: &str) -> bool {
+    // A version string that can't be parsed (for example in a damaged head) is not supported.
     semver::Version::parse(version)
         .map(|sv| band_version_requirement().matches(&sv))
-        .unwrap()
+        .unwrap_or(false)
 }
 
 /// Each backup makes a new `band` containing an index directory.
